@@ -424,7 +424,7 @@ def d_float_float(name: str, fv: int, fw: int) -> bool:
 
 @cond(
     pre=["0 <= f < 8", "not isinstance(x, int) or -1 <= x <= 1", "not isinstance(x, str) or (len(x) <= 1 and in_alpha(x, '1-e'))"],
-    timeout=360,
+    timeout=200,
     timeout_thorough=400,
     shard={"name": FLOAT_FILTERS},
     shard_thorough={"name": ALL_FILTERS},
@@ -436,9 +436,24 @@ def d_float_float(name: str, fv: int, fw: int) -> bool:
 )
 def d_float_mixed(name: str, f: int, x: Num, big: bool) -> bool:
     f = concrete_int(f, 0, 7)
-    x = _scale(x, big)
+    # x ranges over a dozen values: turn it into a plain Python value (comparing a symbolic int x 2^62 or
+    # parsing a symbolic string against a float stalls the solver), then run the real filter outside the tracer
+    if isinstance(x, bool):
+        x = bool(x)
+    elif isinstance(x, int):
+        x = concrete_int(x, -1, 1)
+    elif isinstance(x, str):
+        for cand in ("", "1", "-", "e"):
+            if x == cand:
+                x = cand
+                break
+        else:
+            return True
+    else:
+        x = None
+    x = _scale(x, bool(big))
     t = _filter_template(name, 1)
-    return _only_liquid(t, v=FLOATS[f], w=x) and _only_liquid(t, v=x, w=FLOATS[f])
+    return untraced(lambda: _only_liquid(t, v=FLOATS[f], w=x) and _only_liquid(t, v=x, w=FLOATS[f]))
 
 
 _HOSTILE = [0, -1, 7, 10**30, -(10**30), 10**5000, True, False, None, "", "a", "%s", "é=", "1e400", "-.", " 1", "nan", "inf", [], [1, "a", None], [[1], [2]],
@@ -805,12 +820,13 @@ HOSTILE_SRC = [
     "{% if w < u %}lt{% endif %}{% if w >= u %}ge{% endif %}{% if w and u or w %}t{% endif %}{% if w == empty or w == blank or w != nil %}e{% endif %}",
     "{% capture c %}{{ w }}{% endcapture %}{{ c | size }}{% assign z = w %}{{ z }}{% echo w | default: u %}{% increment k %}{{ k | plus: w }}",
 ]
+N_HOSTILE = len(_HOSTILE)
 _HOSTILE_ENV = ShopifyEnvironment(loader=__import__("liquid2").DictLoader({"p": "[{{ p }}{{ q }}]"}))
 HOSTILE_T = [_HOSTILE_ENV.from_string(s) for s in HOSTILE_SRC]
 
 
 @cond(
-    pre=["0 <= i < len(_HOSTILE)", "0 <= j < len(_HOSTILE)"],
+    pre=["0 <= i < N_HOSTILE", "0 <= j < N_HOSTILE"],
     timeout=300,
     shard={"p": list(range(len(HOSTILE_SRC)))},
     covers="well-formed programs of every tag kind (nested loops over loop drops, translate blocks and filters with literal percent signs, huge ranges in size/first/last/render-for/include-for, contains on ranges and confused operands, tablerow/for arguments, paths, case/ternary/unless, partial bindings, macros, template strings, liquid tag, cycle, comparisons, capture/assign/echo/increment) rendered against every pair of type-confused values (nan, inf, 10^30, 10^5000, negative, wrong container types, nested values, ranges): only LiquidError escapes, sync and async",
